@@ -42,16 +42,24 @@ Definition blocking_form (args : list bytes) : option (bool * list bytes * Z) :=
     else None
   end.
 
+(* what the trace shows when the harness watchdog gave up on a command that was still blocked *)
+Definition blocked_marker : reply := RPlain (B "BLOCKED").
+
 (* foreground reply, replies of the background commands (in order), final server, instant at
-   which the foreground command returned *)
+   which the foreground command returned.  [wd_ms]: the harness cancels a command still blocked
+   wd_ms after its start (BLPOP with timeout 0 and nothing to pop blocks for ever); the reply
+   is then [blocked_marker].  wd_ms is not a multiple of 100, so it never coincides with a tick. *)
 Definition srv_exec_bg (s : server) (conn : Z) (now nowms : Z) (args : list bytes) (hint : reply)
-           (evs : list bgev) : reply * list reply * server * Z :=
+           (evs : list bgev) (wd_ms : Z) : reply * list reply * server * Z :=
   let acts := map (fun e => (bg_ms e, run_ev e)) evs in
   match blocking_form args with
   | Some (lft, keys, t) =>
-    let '(res, tend, rest, s1, outs) := block (srv_poll lft keys conn) nowms t acts s in
+    let cut := block_timer_ms t >? wd_ms in
+    let '(res, tend, rest, s1, outs) :=
+        if cut then block_n (srv_poll lft keys conn) nowms (Z.to_pos (wd_ms / 100)) wd_ms acts s
+        else block (srv_poll lft keys conn) nowms t acts s in
     let '(outs2, s2) := run_evs rest s1 in
-    (match res with Some r => r | None => RNil end, outs ++ outs2, s2, tend)
+    (match res with Some r => r | None => if cut then blocked_marker else RNil end, outs ++ outs2, s2, tend)
   | None =>
     let '(r, s1) := srv_exec s conn now nowms args hint in
     let '(outs, s2) := run_evs acts s1 in
